@@ -47,7 +47,7 @@ def inputs(tier="quick"):
     # C04: every kind on the full table set
     base = "\n".join(c04.TABLES[x][2] for x in c04.TKEYS) + "\n"
     for k in c04.KINDS:
-        if not _well_formed([k]) or k in ("fk2w", "defcall", "defpar", "addnn"):
+        if not _well_formed([k]) or k in ("fk2w", "defcall", "defpar", "addnn", "pgsetdef"):
             continue  # (fk2w: two-word action in an ALTER, an open known finding of C04 - not "supported" DDL)
         for tgt in ("s1.t", "S3.T"):
             out.append(("c04", base + c04.stmt([k, tgt, "asis", "asis", "asis"])))
